@@ -31,7 +31,7 @@ META["C02"] = {
     "text": "C02's clauses (NoCorruptAfterRestart, CompletedWritesDurable, RemovalsStay) are evaluated on the Restart step of every behaviour: TLC enumerates all crash points of the bounded model "
             "(every subset of released bodies) and simulates deeper ones; the driver realises each on the real store (parked bodies are never released, the directory is reopened with the same "
             "peer id and encryption seed) and cuts the file of the write in progress at 0,1,2,15,16,17,len/2,len-17,len-16,len-1 bytes (thorough: every prefix length, round-robin over runs).",
-    "note": _common_note + "; a completed fs::write is durable and a torn write leaves a byte prefix (no block-level reordering); the store is built with with_config and a fixed seed -- the derivation of the seed from the peer id (driver.rs) is covered by the node-level areas",
+    "note": _common_note + "; a completed fs::write is durable and a torn write leaves a byte prefix (no block-level reordering); crash points are driven on a store built with with_config and a fixed seed; a further run restarts a node built by build_node (seed re-derived from the peer id, driver.rs)",
     "design_ref": "5 Area RecordStore",
 }
 CLAUSES = {
